@@ -92,7 +92,7 @@ def regenerate_guards(pid):
         return "ok", "regenerated" if (text != old or stext != sold) else "unchanged", info
     if pid == "C04":
         import py2lean_scatter
-        info = {"module": "LK.Gen.ScatterC04", "obligations": "LK/Proofs/ScatterC04.lean", "sites": [f"{rel}:{cls}.__call__ → {nm}" for rel, cls, nm in py2lean_scatter.SCORERS]}
+        info = {"module": "LK.Gen.ScatterC04", "obligations": "LK/Proofs/ScatterC04.lean", "sites": [f"{rel}:{cls}.__call__ → {nm}" for rel, cls, nm, *_ in py2lean_scatter.SCORERS]}
         target = LEAN_DIR / "LK" / "Generated" / "ScatterC04.lean"
         try: text = py2lean_scatter.generate(os.path.dirname(lenskit.__file__))
         except py2lean_scatter.Unsupported as e: return "untranslatable", str(e), info
